@@ -251,12 +251,18 @@ impl PendingSubscriptionSink {
 		if success {
 			let (tx, rx) = mpsc::channel(1);
 			self.subscribers.lock().insert(self.uniq_sub.clone(), (self.inner.clone(), rx));
+			let unsubscribe = IsUnsubscribed(tx);
+			let remove_on_drop = RemoveSubscriptionOnDrop {
+				subscribers: self.subscribers,
+				uniq_sub: self.uniq_sub.clone(),
+				unsubscribe: unsubscribe.clone(),
+			};
 			Ok(SubscriptionSink {
 				inner: self.inner,
 				method: self.method,
-				subscribers: self.subscribers,
 				uniq_sub: self.uniq_sub,
-				unsubscribe: IsUnsubscribed(tx),
+				unsubscribe,
+				_remove_on_drop: Arc::new(remove_on_drop),
 				_permit: Arc::new(self.permit),
 			})
 		} else {
@@ -299,12 +305,12 @@ pub struct SubscriptionSink {
 	inner: MethodSink,
 	/// MethodCallback.
 	method: &'static str,
-	/// Shared Mutex of subscriptions for this method.
-	subscribers: Subscribers,
 	/// Unique subscription.
 	uniq_sub: SubscriptionKey,
 	/// A future to that fires once the unsubscribe method has been called.
 	unsubscribe: IsUnsubscribed,
+	/// Removes the subscription once all sinks have been dropped.
+	_remove_on_drop: Arc<RemoveSubscriptionOnDrop>,
 	/// Subscription permit
 	_permit: Arc<SubscriptionPermit>,
 }
@@ -411,9 +417,23 @@ impl SubscriptionSink {
 	}
 }
 
-impl Drop for SubscriptionSink {
+/// Removes the subscription from the subscribers when it's dropped.
+///
+/// It's shared by all clones of a [`SubscriptionSink`] such that the
+/// subscription stays active as long as one of them is alive.
+#[derive(Debug)]
+struct RemoveSubscriptionOnDrop {
+	/// Shared Mutex of subscriptions for this method.
+	subscribers: Subscribers,
+	/// Unique subscription.
+	uniq_sub: SubscriptionKey,
+	/// Whether the subscription has been unsubscribed already.
+	unsubscribe: IsUnsubscribed,
+}
+
+impl Drop for RemoveSubscriptionOnDrop {
 	fn drop(&mut self) {
-		if self.is_active_subscription() {
+		if !self.unsubscribe.is_unsubscribed() {
 			self.subscribers.lock().remove(&self.uniq_sub);
 		}
 	}
